@@ -26,7 +26,7 @@ ELEMS = 'CNOHS'
 BIG_N = (501, 998, 999, 1000, 1001, 3000)
 BIG_FAMILIES = ('chain', 'revchain', 'star', 'comb', 'joined', 'notjoined', 'ring_tail2', 'lone_first')
 ATTACHED = ('moleculetype', 'atoms', 'bonds', 'constraints', 'pairs')
-TAILS = (' ; note', ' ;', ' ; a ; b', ';7 8 tight', ' ; 1 2', ' ;;')
+TAILS = (' ; note', ' ;', ' ; a ; b', ';7 8 tight', ' ; 1 2', ' ;;', ' ; b0 [nm]', ' ; see [ref] [ 12 ]')
 
 
 def numbering(kind, n):
@@ -47,7 +47,9 @@ def atom_rows(n, res):
     rows = []
     for i in range(n):
         name = ELEMS[i % 5] + str(i + 1)
-        if res == 'one':
+        if res == 'long':                 # names beyond the five columns a coordinate file has: kept as written
+            rows.append(('CARB%03d' % (i + 1), 'LONGRES' if i < (n + 1) // 2 else 'OTHERRES', 1 if i < (n + 1) // 2 else 2))
+        elif res == 'one':
             rows.append((name, 'MOL', 1))
         elif res == 'two':
             rows.append((name, 'MOL', 1 if i < (n + 1) // 2 else 2))
@@ -125,7 +127,7 @@ def render(n, edges, assign, num='seq', res='one', order=(0, 1, 2), noise='none'
         return [content(bond_tokens(s, a, b), SECS[s]) for a, b in pairs]
 
     if noise == 'comments':
-        out += ['; topology written for the check', '; [ bonds ]', ';', '']
+        out += ['; topology written for the check', '; [ bonds ]', ';', '; lengths in [nm], energies in [kJ]', '']
     if noise == 'preproc':
         out += ['#include "forcefield.itp"', '#define FLEXIBLE']
     out.append(head('moleculetype'))
@@ -185,7 +187,7 @@ def render(n, edges, assign, num='seq', res='one', order=(0, 1, 2), noise='none'
                     out[-6:-6] = ['#ifdef ALL_%s' % SECS[s].upper()]
                     out.insert(-4, '#endif')
             elif noise == 'comments':
-                out.append(';  ai  aj  funct')
+                out.append(';  ai  aj  funct  b0 [nm]  kb [kJ]')
                 for i, ln in enumerate(lines):
                     out.append(ln)
                     if i == 0:
@@ -246,7 +248,7 @@ class C15(Check):
                  'read_topology / MoleculeTop / are_connected / copy and by an independent reference reader')
     level_text = ('every labelled simple graph on 1..4 (quick) / 1..5 (thorough) atoms, with every assignment of its '
                   'edges to bonds/constraints/pairs (at most 2 edges off [ bonds ] beyond 4 edges), 3 numberings, '
-                  '3 residue layouts, 3 section orders and 7 noise templates (incl. conditional blocks inside the sections), and 8 large families (incl. unbonded atoms at the very end / start) at 6 sizes from 501 up to '
+                  '3 residue layouts (+ one with atom / residue names longer than five characters), 3 section orders and 7 noise templates (incl. conditional blocks inside the sections), and 8 large families (incl. unbonded atoms at the very end / start) at 6 sizes from 501 up to '
                   '3000 atoms are rendered and read by the real code, plus a sequence of 6 different topologies written to one path and read by path, one file per typed section with a comment glued to '
                   'the last token (`1 2 1;c`) and one with indented directives; a coverage statement over that finite space')
     level_note = ('trusted: the reference reader mcx/ref/itp.py (self-tested), the graph enumerators; each file is loaded '
@@ -320,6 +322,8 @@ class C15(Check):
             yield {'k': 'big', 'fam': unit['fam'], 'n': unit['n']}
         else:
             yield {'k': 'pathseq'}
+            for i in range(len(SPECIAL_GRAPHS)):
+                yield {'k': 'special', 'g': i}
             for kind in ATTACHED:
                 yield {'k': 'attached', 'kind': kind}
             for kind in ATTACHED:
@@ -338,6 +342,14 @@ class C15(Check):
             return
         if case['k'] == 'pathseq':
             self._pathseq(case, R)
+            return
+        if case['k'] == 'special':
+            n, edges = SPECIAL_GRAPHS[case['g']]
+            for num in ('seq', 'gaps'):
+                sigs, outcome = examine(render(n, edges, [k % 3 for k in range(len(edges))], num=num), direct=True)
+                R.case(dict(case, num=num), nontrivial=True, outcome=outcome, cls='special-graphs')
+                for sig, det in sigs:
+                    R.violation(sig, case, det)
             return
         if case['k'] == 'attached':
             kind = case['kind']
@@ -369,8 +381,10 @@ class C15(Check):
             d = (NUMBERINGS[0], RESIDUES[0], 0, NOISES[0])      # one factor off the default at a time
             combos = [d] + [(x,) + d[1:] for x in NUMBERINGS[1:]] + [d[:1] + (x,) + d[2:] for x in RESIDUES[1:]]
             combos += [d[:2] + (o, d[3]) for o in range(1, len(ORDERS))] + [d[:3] + (z,) for z in NOISES[1:]]
+            combos += [(d[0], 'long', 0, d[3])]
         else:
             combos = list(itertools.product(NUMBERINGS, RESIDUES, range(len(ORDERS)), NOISES))
+            combos += [(num, 'long', 0, noise) for num in NUMBERINGS for noise in ('none', 'trailing')]
         nontrivial = bool(edges)
         for num, res, order, noise in combos:
             if order and len(set(assign)) < 2 and noise != 'comments':
@@ -397,6 +411,17 @@ def last_occurrence_graph(parsed, numbers):
     return g
 
 
+# graphs whose edge count alone says nothing: disconnected with exactly n-1 edges and no isolated atom (a ring plus a
+# separate fragment), connected with exactly n-1 edges, and the like, on 5..7 atoms
+SPECIAL_GRAPHS = (
+    (5, [(0, 1), (1, 2), (0, 2), (3, 4)]),                      # triangle + dimer
+    (6, [(0, 1), (1, 2), (2, 3), (0, 3), (4, 5)]),              # square + dimer
+    (7, [(0, 1), (1, 2), (0, 2), (3, 4), (4, 5), (5, 6)]),      # triangle + 4-chain
+    (6, [(0, 1), (1, 2), (0, 2), (3, 4), (4, 5), (3, 5)]),      # two triangles (n edges)
+    (6, [(5, 4), (4, 3), (3, 5), (0, 1), (1, 2)]),              # trimer + triangle, ring on the high numbers
+    (5, [(0, 1), (1, 2), (2, 3), (3, 4)]),                      # control: a chain (connected, n-1 edges)
+    (5, [(0, 1), (1, 2), (0, 2), (2, 3), (3, 4)]),              # control: triangle with a tail (connected)
+)
 PATHSEQ = ((3, [(0, 1), (1, 2)], 'one'), (5, [(0, 1), (1, 2), (2, 3), (3, 4), (0, 4)], 'two'), (2, [(0, 1)], 'one'),
            (4, [(0, 3), (1, 3), (2, 3)], 'three'), (3, [(0, 2)], 'one'), (5, [(0, 1), (1, 2), (2, 3), (3, 4), (0, 4)], 'two'))
 
